@@ -74,8 +74,8 @@ ASSUMPTIONS = [
     "app configuration values are {} / {'k': n}; None <-> {} transitions are not generated",
 ]
 TIERS = {
-    "quick": {"runs": 8000, "chunk": 125, "max_ops": 12},
-    "thorough": {"runs": 120000, "chunk": 500, "max_ops": 12},
+    "quick": {"runs": 6000, "chunk": 125, "max_ops": 12},
+    "thorough": {"runs": 100000, "chunk": 500, "max_ops": 12},
 }
 REACH_PROBES = [
     "diamond_import", "package_sibling_changed", "running_task_survived", "hash_rename", "hash_dir_rename",
@@ -941,9 +941,6 @@ class Judge:
                     importers = [c for c, e in loaded.items() if mod in e["imports"] and root_of(c) != root_of(mod)]
                     if importers and all(loaded[c]["kind"] == "app_pkg_sibling" for c in importers):
                         w.probe("module_only_imported_by_app_sibling")
-        if any(ent["kind"].endswith("_pkg_sibling") and any(root_of(t) == root_of(ctx) and t != root_of(ctx)
-                                                            for t in ent["wanted"]) for ctx, ent in loaded.items()):
-            w.probe("sibling_imports_sibling")
         if any(t not in exp["found"] and t not in loaded for ent in loaded.values() for t in ent["wanted"]):
             w.probe("import_of_absent_module")
 
@@ -993,6 +990,8 @@ class Judge:
                 self.viol("C10.reexecuted_unexpectedly", {"mode": label, "place": "deleted_file"},
                           f"{label} reload executed {uid} gen {gen} as {name} but that file no longer exists")
                 continue
+            if info["kind"].endswith("_pkg_sibling") and any(i[0] == "rel" for i in disk.files[path]["imports"]):
+                w.probe("sibling_imports_sibling")
             if info["hidden"]:
                 self.viol("C10.reexecuted_unexpectedly", {"mode": label, "place": "hidden_" + info["kind"]},
                           f"{label} reload executed commented file {path} as {name}")
@@ -1023,10 +1022,7 @@ class Judge:
         for name in sorted(must_exec):
             if name not in executed:
                 sig = reason_sig(name, must_changed)
-                cls = "C10.not_reexecuted"
-                if sig.get("op") in ("delete", "hash") and sig.get("place", "").endswith("_pkg_sibling") \
-                        and "widen" in sig.get("via", ""):
-                    cls = "C10.deleted_sibling_not_widened"
+                cls = cause_class("C10.not_reexecuted", sig)
                 self.viol(cls, sig,
                           f"{label} reload did not execute {name} ({found[name]['path']}); it had to because of "
                           f"{_fmt({name: must_changed.get(name)})}; changed: {_fmt(exp['must_base'])}; "
@@ -1043,10 +1039,7 @@ class Judge:
                 continue  # reported as executed unexpectedly / wrong name
             if ctx in before:
                 sig = {"kind": "unexpected", **reason_sig(ctx, must_changed)}
-                cls = "C10.context_set"
-                if sig.get("op") in ("delete", "hash") and sig.get("place", "").endswith("_pkg_sibling") \
-                        and "widen" in sig.get("via", ""):
-                    cls = "C10.deleted_sibling_not_widened"
+                cls = cause_class("C10.context_set", sig)
                 self.viol(cls, sig,
                           f"after {label} reload context {ctx} is still loaded; it had to be discarded because of "
                           f"{_fmt({ctx: must_changed.get(ctx)})} and nothing loads it again")
@@ -1183,6 +1176,19 @@ class Judge:
 
 
 
+def cause_class(default: str, sig: dict) -> str:
+    """Violations whose cause (per the reference) is the removal of a non-auto-loaded file get their own classes."""
+    place, via = sig.get("place", ""), sig.get("via", "")
+    if sig.get("change") == "removed" and sig.get("op") in ("delete", "hash"):
+        if place.endswith("_pkg_sibling") and "widen" in via:
+            return "C10.deleted_sibling_not_widened"      # a package lost a sibling file: package not reloaded
+        if place.endswith("_pkg_init") and via.startswith("widen"):
+            return "C10.deleted_pkg_init_siblings_kept"   # a package lost its __init__.py: siblings stay loaded
+        if place in ("module_file", "module_pkg_init") and via.startswith("import"):
+            return "C10.deleted_module_importers_kept"    # a module was removed: its importers are not reloaded
+    return default
+
+
 def classify_ctx_known(name: str, found: dict, before: dict) -> bool:
     return name in found or name in before
 
@@ -1266,6 +1272,8 @@ def run(scn: dict) -> dict:
             else:
                 if not disk.apply(op, w):
                     w.probe("op_skipped")
+                elif kind == "hash" and not op["target"].endswith(".py"):
+                    w.probe("hash_dir_rename")
         await w.settle(max_task + 1.0)
         judge.final_tasks()
 
